@@ -102,10 +102,13 @@ Definition rec_tracked (c : config) (u : U) (r : cycle_rec) (quiet : Prop) : Pro
 Lemma fold_apply_user : forall fxs (s : st), s_user (fold_left (@apply_fx U) fxs s) = s_user s.
 Proof. induction fxs as [|fx fxs IH]; intros s; simpl; auto. rewrite IH. destruct fx; reflexivity. Qed.
 
+Lemma nocancel : forall c, c_cancel c = None -> forall s : st, cancelled c s = false.
+Proof. intros c H s. unfold cancelled. rewrite H. reflexivity. Qed.
+
 Lemma cycle_step_track : forall c ord (s : st),
   match cycle_step c ord s with
-  | Continue s' r => s_user s' = next_user (s_user s) r /\ rec_tracked c (s_user s) r False /\ cr_started r = true
-  | Stop s' (Some r) o => s_user s' = next_user (s_user s) r /\ rec_tracked c (s_user s) r (o = OQuiescent)
+  | Continue s' r => s_user s' = next_user (s_user s) r /\ rec_tracked c (s_user s) r (c_cancel c = None) /\ cr_started r = true
+  | Stop s' (Some r) o => s_user s' = next_user (s_user s) r /\ rec_tracked c (s_user s) r (o = OQuiescent \/ c_cancel c = None)
   | Stop s' None o => s_user s' = s_user s
   end.
 Proof.
@@ -121,17 +124,17 @@ Proof.
     - simpl. intros [E|E]; [discriminate|]. apply Hexact. apply Hq. exact E.
     - simpl. intros E; discriminate. }
   destruct early as [o|].
-  { apply noexec. intros ->.
+  { apply noexec. intros [->|Hn]; [|apply nocancel; exact Hn].
     (* an early exit is never the quiescent outcome *)
     exfalso. pose proof (eval_loop_early U tcond _ _ _ _ _ _ _ _ _ El) as [[E _]|(k & cx & E & _)]; discriminate. }
   destruct runnable as [|hd tl].
-  { destruct (cancelled c s1) eqn:Ec1; simpl; apply noexec; intros E; try discriminate; auto. }
+  { destruct (cancelled c s1) eqn:Ec1; simpl; apply noexec; (intros [E|E]; [try discriminate; auto|pose proof (nocancel c E s1); congruence]). }
   cbv zeta.
   match goal with |- context [over_budget ?a ?b] => destruct (over_budget a b) end.
-  { apply noexec. intros E; discriminate. }
+  { apply noexec. intros [E|E]; [discriminate|apply nocancel; exact E]. }
   match goal with |- context [cancelled c ?sx] => destruct (cancelled c sx) eqn:Ec3 end.
   { simpl. split; [exact Hu|]. split; [exact Hsound|]. split; simpl.
-    - intros [E|E]; discriminate.
+    - intros [E|[E|E]]; try discriminate. rewrite (nocancel c E) in Ec3. discriminate.
     - intros E; discriminate. }
   simpl s_user.
   destruct (tact (s_user s1) (pick hd tl)) as [[u fxs] failed] eqn:Ea. unfold tact in Ea.
@@ -159,7 +162,7 @@ Qed.
 Inductive tracked (c : config) (o : outcome) : U -> list cycle_rec -> U -> Prop :=
 | T_nil : forall u, tracked c o u [] u
 | T_cons : forall u r recs u',
-    rec_tracked c u r (recs = [] /\ o = OQuiescent) ->
+    rec_tracked c u r ((recs = [] /\ o = OQuiescent) \/ c_cancel c = None) ->
     tracked c o (next_user u r) recs u' ->
     tracked c o u (r :: recs) u'.
 
@@ -182,7 +185,7 @@ Proof.
       * rewrite <- Hu. exact Ht.
     + inversion H; subst. destruct Hs as (Hu & Hr). exists [r]. split; auto.
       constructor.
-      * eapply rec_tracked_weaken; [|exact Hr]. intros [_ E]; exact E.
+      * eapply rec_tracked_weaken; [|exact Hr]. intros [[_ E]|E]; [left; exact E|right; exact E].
       * rewrite <- Hu. constructor.
     + inversion H; subst. exists []. rewrite app_nil_r. split; auto. rewrite Hs. constructor.
 Qed.
